@@ -2,6 +2,8 @@
 From V.lib Require Import Bits Mem Res Sweep.
 From V.model Require Import MapperTypes System.
 From V.proofs Require Import SerialProofs.
+From V.spec Require AddrSpec.
+From V.proofs Require SerialHw.
 
 (* For every history of bus operations (reads and writes of bytes at any address: every CPU access is one, C01/C03)
    from any machine state: the bytes delivered to the serial writer are exactly the values written to FF01, each once,
@@ -13,9 +15,20 @@ Theorem C23_transcript : forall (h : list bop) (s s' : sys),
 Proof. exact serial_transcript. Qed.
 Print Assumptions C23_transcript.
 
+(* The same for histories that interleave the hardware half of machine cycles (PPU with the renderer, OAM DMA reading
+   through the bus, cartridge clock, APU, timer and its interrupt request) at any point: the hardware delivers, drops
+   and reorders nothing. *)
+Theorem C23_transcript_hw : forall (h : list V.spec.AddrSpec.bop) (s s' : sys),
+  Forall V.proofs.SerialHw.wf_hop h -> V.spec.AddrSpec.bus_run s h = Ok s' ->
+  s_serial s' = (if s_ser_attached s then rev (V.proofs.SerialHw.sb_writes_hw h) ++ s_serial s else s_serial s) /\
+  s_ser_attached s' = s_ser_attached s.
+Proof. exact V.proofs.SerialHw.serial_transcript_hw. Qed.
+Print Assumptions C23_transcript_hw.
+
 (* the decoder regenerated from mapper.go routes FF01, and only FF01, to the serial data register *)
 Theorem C23_decoder : all_below 65536 (fun a => Bool.eqb (is_sb (write_handler a)) (a =? 65281)) = true.
 Proof. exact write_sb_only. Qed.
+Print Assumptions C23_decoder.
 
 (* SB and SC read 0xFF *)
 Theorem C23_reads_ff : forall s a s' v, a < 65536 -> (a = 65281 \/ a = 65282) -> sys_read s a = Ok (s', v) -> v = 255.
